@@ -238,4 +238,99 @@ theorem specAllow_congr {C D : Type} (σ : Sem C) (τ : Sem D) (env : Env) (ixns
     | some s => exact h s ⟨peer, name, hs⟩
   rw [this]
 
+/-- the sources of the given intentions -/
+def IxnSrc (env : Env) (ixns : List Ixn) (s : Src) : Prop := ∃ i ∈ ixns, srcOf env i.peer i.name = some s
+
+theorem IxnSrc_env (env : Env) (ixns : List Ixn) (s : Src) (h : IxnSrc env ixns s) : EnvSrc env s := by
+  obtain ⟨i, _, hi⟩ := h; exact ⟨i.peer, i.name, hi⟩
+
+theorem srcRel_mono (m : Src → Bool) (S S' : Src → Prop) (h : ∀ s, S' s → S s) (hr : SrcRel m S) : SrcRel m S' :=
+  ⟨fun a b ha hb => hr.cover a b (h a ha) (h b hb), fun a b ha hb => hr.disj a b (h a ha) (h b hb)⟩
+
+theorem find?_congr_mem {α : Type} (l : List α) (p q : α → Bool) (h : ∀ a ∈ l, p a = q a) : l.find? p = l.find? q := by
+  induction l with
+  | nil => rfl
+  | cons a l ih =>
+    simp only [List.find?_cons, h a List.mem_cons_self]
+    rw [ih (fun b hb => h b (List.mem_cons_of_mem _ hb))]
+
+theorem specAllow_congr_ixns {C D : Type} (σ : Sem C) (τ : Sem D) (env : Env) (ixns : List Ixn) (dflt http : Bool)
+    (c : C) (d : D) (r : Req)
+    (h : ∀ s, IxnSrc env ixns s →
+      srcM σ env (expectXFCC env http ixns) s c = srcM τ env (expectXFCC env http ixns) s d) :
+    specAllow σ env ixns dflt http c r = specAllow τ env ixns dflt http d r := by
+  unfold specAllow specAllowM
+  rw [find?_congr_mem (sortIxns ixns) _ (fun i => ixnM τ env (expectXFCC env http ixns) d i.peer i.name)]
+  intro i hi
+  have hi' : i ∈ ixns := (mem_isort less i ixns).mp hi
+  unfold ixnM
+  cases hs : srcOf env i.peer i.name with
+  | none => rfl
+  | some s => exact h s ⟨i, hi', hs⟩
+
+/-! ### the sort puts higher precedence first -/
+
+theorem less_prec (a b : Ixn) (h : less a b = true) : b.prec ≤ a.prec := by
+  unfold less at h
+  split at h
+  · simp only [gt_iff_lt, decide_eq_true_eq] at h; omega
+  · next hp => simp only [ne_eq, Decidable.not_not] at hp; omega
+
+theorem not_less_prec (a b : Ixn) (h : less a b = false) : a.prec ≤ b.prec := by
+  unfold less at h
+  split at h
+  · simp only [gt_iff_lt, decide_eq_false_iff_not] at h; omega
+  · next hp => simp only [ne_eq, Decidable.not_not] at hp; omega
+
+theorem ins_sorted (x : Ixn) (l : List Ixn) (h : l.Pairwise (fun a b => b.prec ≤ a.prec)) :
+    (ins less x l).Pairwise (fun a b => b.prec ≤ a.prec) := by
+  induction l with
+  | nil => simp [ins]
+  | cons y ys ih =>
+    have hp := List.pairwise_cons.mp h
+    simp only [ins]
+    split
+    · next hl =>
+      apply List.pairwise_cons.mpr
+      refine ⟨?_, ih hp.2⟩
+      intro z hz
+      cases (mem_ins less x z ys).mp hz with
+      | inl e => rw [e]; exact less_prec y x hl
+      | inr e => exact hp.1 z e
+    · next hl =>
+      have hxy : y.prec ≤ x.prec := not_less_prec y x (by simpa using hl)
+      apply List.pairwise_cons.mpr
+      refine ⟨?_, h⟩
+      intro z hz
+      cases List.mem_cons.mp hz with
+      | inl e => rw [e]; exact hxy
+      | inr e => exact Nat.le_trans (hp.1 z e) hxy
+
+theorem sortIxns_sorted (l : List Ixn) : (sortIxns l).Pairwise (fun a b => b.prec ≤ a.prec) := by
+  induction l with
+  | nil => simp [sortIxns, isort]
+  | cons x xs ih => exact ins_sorted x _ ih
+
+theorem find?_sorted_max (l : List Ixn) (p : Ixn → Bool) (h : l.Pairwise (fun a b => b.prec ≤ a.prec))
+    (i : Ixn) (hf : l.find? p = some i) : ∀ j ∈ l, p j = true → j.prec ≤ i.prec := by
+  induction l with
+  | nil => simp at hf
+  | cons a t ih =>
+    have hp := List.pairwise_cons.mp h
+    simp only [List.find?_cons] at hf
+    cases hpa : p a with
+    | true =>
+      simp only [hpa] at hf
+      cases hf
+      intro j hj _
+      cases List.mem_cons.mp hj with
+      | inl e => rw [e]; exact Nat.le_refl _
+      | inr e => exact hp.1 j e
+    | false =>
+      simp only [hpa] at hf
+      intro j hj hpj
+      cases List.mem_cons.mp hj with
+      | inl e => rw [e, hpa] at hpj; cases hpj
+      | inr e => exact ih hp.2 hf j e hpj
+
 end CV.Rbac
